@@ -243,6 +243,12 @@ def handle (line : String) : String :=
     match n.toInt? with
     | some n => showExcept (LabelsGen.genFormatIntAlpha n)
     | none => "bad-op"
+  | ["gen.label", st, n] =>
+    match n.toInt? with
+    | some n =>
+      let style : Option Bytes := if st == "-" then none else some st.toUTF8.toList
+      showExcept (LabelsGen.genFormatPageLabel n style)
+    | none => "bad-op"
   | ["spec.roman", n] =>
     match n.toNat? with
     | some n => showOptText (Spec.Labels.roman n)
